@@ -183,6 +183,10 @@ func checkBuild(res *Result, sigPrefix string, toks []Tok, rd rendered, exp *bui
 		return true
 	default:
 		if o.Res != "err" {
+			// whatever the real code accepts has to be a closed catalog, whether the specification accepts the document or not
+			if bad := checkC05(o.JSON); len(bad) > 0 {
+				res.mismatch("c05:"+short(bad[0]), "cross-reference invariant broken (in a catalog the specification does not even accept): "+strings.Join(bad, "; "), replay)
+			}
 			res.mismatch(sigPrefix+":spec-"+exp.Cls+"-code-ok", fmt.Sprintf("spec: rejected (%s at token %d); code accepts", exp.Cls, exp.Tok), replay)
 			return false
 		}
